@@ -95,6 +95,11 @@ class Session:
         self.obligations.append(o)
         return o
 
+    def _phase(self, name, t0):
+        if os.environ.get("VERIF_TIMING"):
+            import sys as _s
+            print(f"  [timing] {name}: {time.time() - t0:.1f}s", file=_s.stderr, flush=True)
+
     def attempt_all(self, tasks, procs=None):
         """Run obligation generators in forked worker processes (symbolic execution dominates the wall time).
         tasks: list of (label, fn).  Obligations come back as SMT-LIB text; a failing one is regenerated
@@ -110,12 +115,14 @@ class Session:
         else:
             # one fresh process per task: no solver / cache / counter state leaks from one task into the next, so the
             # outcome does not depend on how many workers the machine offers
+            t0 = time.time()
             pool = mp.get_context("fork").Pool(procs, maxtasksperchild=1)
             try:
                 outs = pool.map(_run_task, range(len(tasks)), chunksize=1)
             finally:
                 pool.close()
                 pool.join()
+            self._phase("generation (worker pool)", t0)
         for (label, fn), (status, payload, extra) in zip(tasks, outs):
             if status == "ok":
                 def regen(fn=fn, memo={}):
@@ -138,6 +145,7 @@ class Session:
     def discharge_all(self):
         obls = self.obligations
         from .smt import bounded_expand, to_smt2
+        _t0 = time.time()
         # witnesses first: covers / canaries are tried on their bounded expansion (a `sat` there is genuine)
         pre = {}
         wit = [o for o in obls if o.expect == "sat"]
@@ -149,9 +157,12 @@ class Session:
                 if r["result"] == "sat":
                     r["backend"] += "+bounded-expansion(B=2)"
                     pre[id(o)] = r
+        self._phase("witness pass", _t0)
+        _t0 = time.time()
         rest = [o for o in obls if id(o) not in pre]
         tms = [self.timeout_ms if o.expect == "unsat" else min(self.timeout_ms, 8000) for o in rest]
         results = discharge([o.smt2() for o in rest], timeout_ms=tms, cross=(self.tier == "thorough"))
+        self._phase("main discharge", _t0)
         for o, r in zip(rest, results):
             o.verdict = r
         for o in obls:
